@@ -128,7 +128,7 @@ func step(cap int) func(st, in, out interface{}) (bool, interface{}) {
 			if j < 0 {
 				return !o.found, s
 			}
-			return o.found && o.seen == strings.HasSuffix(live[j], ":1"), s
+			return o.found, s
 		case "list":
 			return o.list == parts[0], s
 		case "seen":
@@ -139,9 +139,7 @@ func step(cap int) func(st, in, out interface{}) (bool, interface{}) {
 			if o.err != "" {
 				return false, s
 			}
-			live = append([]string{}, live...)
-			live[j] = i.id + ":1"
-			return true, enc()
+			return true, s // the flag itself is not modelled here (see listStr)
 		case "remove":
 			j := find(i.id)
 			if j < 0 {
@@ -173,14 +171,16 @@ func errStr(err error) string {
 	return err.Error()
 }
 
+// listStr is the observation a listing contributes to the linearizability check: the ids in
+// order. The seen flags are left out on purpose: the memory store hands out live message
+// objects, so ids (read inside the call) and flags (read by the caller afterwards) are seen at
+// different instants and a listing is not one atomic observation of both. Flags are read
+// (racing with mark-seen, under the race detector) but judged sequentially by C07.
 func listStr(ms []storage.Message) string {
 	var l []string
 	for _, m := range ms {
-		f := "0"
-		if m.Seen() {
-			f = "1"
-		}
-		l = append(l, m.ID()+":"+f)
+		_ = m.Seen()
+		l = append(l, m.ID()+":0")
 	}
 	return strings.Join(l, ",")
 }
